@@ -289,14 +289,79 @@ Fixpoint spans_okb (lo : nat) (sp : list (nat * nat)) (n : nat) : bool :=
   end.
 
 
+(* ---------- omitted parameters and sub-parameters (ECMA-48 5.4.2, ITU T.416) ---------- *)
+(* A parameter string is a list of parameters separated by ';'.  A parameter may be omitted: it then has its
+   default value, which is 0 for SGR (so ESC[m, ESC[;m, ESC[;;m all reset).  A parameter may be split into
+   sub-parameters by ':'; a sub-parameter may be omitted too.  xterm, VTE, kitty, foot, konsole, ... accept an
+   extended colour written as ONE parameter with sub-parameters:
+       38:5:n      38:2:r:g:b      38:2:<colour space>:r:g:b      (48 likewise)
+   The colour-space identifier of the T.416 form is normally omitted, which gives 38:2::r:g:b; the five-part
+   form without that slot is the one xterm and konsole introduced first.  Both mean rgb(r,g,b), exactly like
+   38;2;r;g;b. *)
+Definition xparam := list (option Z).          (* the sub-parameters of one parameter; None: omitted *)
+Definition pnum (o : option Z) : Z := match o with Some v => v | None => 0 end.
+
+Definition xcol_set (p : Z) (c : colour) (s : sgr) : sgr :=
+  if p =? 38 then with_fg s c else if p =? 48 then with_bg s c else s.
+
+(* one parameter that carries sub-parameters *)
+Definition sgr_sub (subs : xparam) (s : sgr) : sgr :=
+  match subs with
+  | [Some p; Some m; Some n] => if m =? 5 then xcol_set p (CIdx n) s else s
+  | [Some p; Some m; Some r; Some g; Some b] => if m =? 2 then xcol_set p (CRGB r g b) s else s
+  | [Some p; Some m; _; Some r; Some g; Some b] => if m =? 2 then xcol_set p (CRGB r g b) s else s
+  | _ => s      (* other sub-parameter forms (4:3 curly underline, 58:... underline colour) are not read here *)
+  end.
+
+(* ESC [ p1 ; ... ; pk ; <last> m : plain parameters (possibly omitted), then optionally one parameter with
+   sub-parameters.  (A parameter with sub-parameters FOLLOWED by more parameters is outside this reading: fzf
+   drops it, see DESIGN 5 C11.) *)
+Record xsgr := mkX { x_ps : list (option Z); x_last : option xparam }.
+Definition sgr_xapply (x : xsgr) (s : sgr) : sgr :=
+  let ps := map pnum (x_ps x) in
+  match x_last x with
+  | None => sgr_apply ps s
+  | Some subs => sgr_sub subs (sgr_params (length ps) ps s)
+  end.
+
+(* the part of it on which fzf is claimed to do what a terminal does: the plain parameters are all given and in
+   the documented domain (sgr_wf), or all of them are omitted; the last parameter, when it has sub-parameters,
+   is a complete extended colour with components 0..255 and no colour-space identifier *)
+Definition is_given (o : option Z) : bool := match o with Some _ => true | None => false end.
+Definition xcol_wf (subs : xparam) : bool :=
+  match subs with
+  | [Some p; Some m; Some n] => ((p =? 38) || (p =? 48)) && (m =? 5) && byte_val n
+  | [Some p; Some m; Some r; Some g; Some b] =>
+      ((p =? 38) || (p =? 48)) && (m =? 2) && byte_val r && byte_val g && byte_val b
+  | [Some p; Some m; None; Some r; Some g; Some b] =>
+      ((p =? 38) || (p =? 48)) && (m =? 2) && byte_val r && byte_val g && byte_val b
+  | _ => false
+  end.
+Definition sgr_xwf (x : xsgr) : bool :=
+  match x_last x with
+  | None => (forallb is_given (x_ps x) && sgr_wf (map pnum (x_ps x)))
+            || (nonemptyb (x_ps x) && forallb (fun o => negb (is_given o)) (x_ps x))
+  | Some subs => forallb is_given (x_ps x) && sgr_wf (map pnum (x_ps x)) && xcol_wf subs
+  end.
+
+(* text of such a sequence: digit strings, [] for an omitted (sub-)parameter *)
+Definition sub_val (ds : str) : option Z := match ds with [] => None | _ => Some (dec_val ds) end.
+Definition render_sgr_x (dss : list str) (last : option (list str)) : str :=
+  ESC :: 91 ::
+    match last with
+    | None => concat_map_sep 59 dss
+    | Some tl => match dss with [] => [] | _ => concat_map_sep 59 dss ++ [59] end ++ concat_map_sep 58 tl
+    end ++ [109].
+
 (* ---------- what a terminal shows: a stream of text and sequences, colour per character ---------- *)
-Inductive item := IText (t : str) | ISgr (ps : list Z) | IOther.
+Inductive item := IText (t : str) | ISgr (ps : list Z) | IOther | ISgrX (x : xsgr).
 Fixpoint term_chars (its : list item) (s : sgr) : list sgr :=
   match its with
   | [] => []
   | IText t :: r => repeat s (rune_count t) ++ term_chars r s
   | ISgr ps :: r => term_chars r (sgr_apply ps s)
   | IOther :: r => term_chars r s
+  | ISgrX x :: r => term_chars r (sgr_xapply x s)
   end.
 
 (* ---------- well-formed streams: text interleaved with complete sequences ---------- *)
